@@ -13,6 +13,27 @@ FS_SOURCES = {"os.listdir", "glob.glob", "glob.iglob", "os.scandir", "os.walk"}
 SANITIZERS = {"sorted", "len", "sum", "min", "max", "any", "all", "set", "frozenset", "bool", "isinstance"}
 
 
+def key_is_total(key: ast.AST) -> bool:
+    """Does the sort key distinguish any two different elements?  Recognised: str/repr, the identity, str(x)/repr(x), and
+    tuples that contain one of those; anything else (len(x), an attribute, a partial projection) is treated as partial."""
+    if isinstance(key, ast.Name) and key.id in ("str", "repr"):
+        return True
+    if isinstance(key, ast.Lambda) and key.args.args:
+        p = key.args.args[0].arg
+
+        def total(e: ast.AST) -> bool:
+            if isinstance(e, ast.Name) and e.id == p:
+                return True
+            if isinstance(e, ast.Call) and isinstance(e.func, ast.Name) and e.func.id in ("str", "repr") and e.args \
+                    and isinstance(e.args[0], ast.Name) and e.args[0].id == p:
+                return True
+            if isinstance(e, ast.Tuple):
+                return any(total(x) for x in e.elts)
+            return False
+        return total(key.body)
+    return False
+
+
 class Hit:
     def __init__(self, kind: str, node: ast.AST, why: str):
         self.kind = kind
@@ -135,6 +156,12 @@ class FunctionOrder:
                 if isinstance(n.func, ast.Attribute) and n.func.attr == "pop" and not n.args and self._is_set_typed(n.func.value):
                     p = source.parent(n)
                     out.append(Hit("S3-pop", n, "set.pop() selects an arbitrary element"))
+                # S4: a sort whose key does not separate all elements keeps the (arbitrary) input order among equal keys
+                if cn == "sorted" and n.args and self.is_unordered(n.args[0]):
+                    key = next((k.value for k in n.keywords if k.arg == "key"), None)
+                    if key is not None and not key_is_total(key):
+                        out.append(Hit("S4-partial-key-sort", n, "sorted(<unordered>, key=%s): elements with equal keys keep the "
+                                                                 "arbitrary input order" % source.short(key, 50)))
                 if cn == "next" and n.args and isinstance(n.args[0], ast.Call) and call_name(n.args[0]) == "iter" \
                         and n.args[0].args and self._is_set_typed(n.args[0].args[0]):
                     out.append(Hit("S3-next-iter", n, "next(iter(<set>)) selects an arbitrary element"))
